@@ -22,10 +22,19 @@ def _containers():
                 continue
             if isinstance(v, (dict, list, set)):
                 snap['%s.%s' % (mname, k)] = _r(v)
+            elif isinstance(v, types.FunctionType) and v.__module__ == mname:
+                for i, dv in enumerate(v.__defaults__ or ()):
+                    if isinstance(dv, (dict, list, set)):
+                        snap['%s.%s.__defaults__[%d]' % (mname, k, i)] = _r(dv)      # a mutable default argument is shared by all calls
             elif isinstance(v, type) and v.__module__ == mname:
                 for ck, cv in list(vars(v).items()):
                     if not ck.startswith('__') and isinstance(cv, (dict, list, set)):
                         snap['%s.%s.%s' % (mname, v.__name__, ck)] = _r(cv)
+                    f = getattr(cv, '__func__', cv)
+                    if isinstance(f, types.FunctionType):
+                        for i, dv in enumerate(f.__defaults__ or ()):
+                            if isinstance(dv, (dict, list, set)):
+                                snap['%s.%s.%s.__defaults__[%d]' % (mname, v.__name__, ck, i)] = _r(dv)
     return snap
 
 
@@ -119,8 +128,22 @@ def measure():
     return rows
 
 
+def measure_fresh():
+    """Run `measure` in a FRESH interpreter: caches, memo tables and lazily filled containers are cold there, so the first use of
+    every profile is observed (in the check's own process earlier translators have already used them all)."""
+    import json
+    import subprocess
+    here = os.path.dirname(os.path.dirname(os.path.abspath(__file__)))
+    code = 'import sys, json; sys.path.insert(0, %r); from gen import isolation; print("@@" + json.dumps(isolation.measure()))' % here
+    p = subprocess.run([sys.executable, '-c', code], stdout=subprocess.PIPE, stderr=subprocess.PIPE, text=True, timeout=300)
+    for line in p.stdout.split('\n'):
+        if line.startswith('@@'):
+            return json.loads(line[2:])
+    raise RuntimeError('isolation probe failed: ' + p.stderr[-500:])
+
+
 def generate(repo, lean_dir):
-    rows = measure()
+    rows = measure_fresh()
     import glob
     srcs = glob.glob(os.path.join(repo, 'ncclient', 'devices', '*.py')) + [os.path.join(repo, 'ncclient', f) for f in ('manager.py', 'xml_.py')]
     out = ['-- GENERATED by harness/gen/isolation.py from /repo on every run. Do not edit.',
